@@ -89,9 +89,13 @@ where
     ) -> Result<(), BulkMutationError<S::Error>> {
         let mut valid_entries = Vec::with_capacity(msg.docs.len());
 
+        // The batch may carry the same document more than once, the storage must see
+        // them in time order so the newest one (which is what the set keeps) is written last.
+        let mut docs = msg.docs;
+        docs.sort_by_key(|doc| doc.last_updated());
+
         // Only select docs to be inserted if they're able to be applied.
-        let docs = msg
-            .docs
+        let docs = docs
             .into_iter()
             .filter(|doc| self.state.will_apply(doc.id(), doc.last_updated()))
             .map(|doc| {
@@ -157,9 +161,12 @@ where
     ) -> Result<(), BulkMutationError<S::Error>> {
         let mut valid_entries = Vec::with_capacity(msg.docs.len());
 
+        // Same as `on_multi_set`, the newest marker for a document must be written last.
+        let mut docs = msg.docs;
+        docs.sort_by_key(|doc| doc.last_updated);
+
         // Only select docs to be inserted if they're able to be applied.
-        let docs = msg
-            .docs
+        let docs = docs
             .into_iter()
             .filter(|doc| self.state.will_apply(doc.id, doc.last_updated))
             .map(|doc| {
